@@ -768,8 +768,47 @@ pub fn run_case(kind: BKind, c: &FCase) -> Result<FStat, String> {
                         let _ = std::fs::remove_file(&path);
                         return Err(r);
                     }
+                    // header accessors: .ids ascending, the support order is the same set sorted by
+                    // the current level, support_var_to_level gives exactly those levels
+                    #[repr(C)]
+                    struct Slice {
+                        ptr: *const u32,
+                        len: usize,
+                    }
+                    let (p_sv, p_svo, p_svl) = (sym("oxidd_dddmp_support_vars"), sym("oxidd_dddmp_support_var_order"), sym("oxidd_dddmp_support_var_to_level"));
+                    if p_sv.is_null() || p_svo.is_null() || p_svl.is_null() {
+                        d_close(file);
+                        return Err("symbol-missing: oxidd_dddmp_support_vars/support_var_order/support_var_to_level".into());
+                    }
+                    let rd = |p: *mut c_void| -> Vec<u32> {
+                        let f: unsafe extern "C" fn(*const c_void) -> Slice = std::mem::transmute(p);
+                        let s = f(file);
+                        if s.ptr.is_null() { vec![] } else { std::slice::from_raw_parts(s.ptr, s.len).to_vec() }
+                    };
+                    let (sv, svo, svl) = (rd(p_sv), rd(p_svo), rd(p_svl));
+                    let v2l = f!(var_to_level);
+                    let mut by_level = sv.clone();
+                    by_level.sort_by_key(|v| v2l(mgr, *v));
+                    let levels: Vec<u32> = sv.iter().map(|v| v2l(mgr, *v)).collect();
+                    st.checks += 1;
+                    if !sv.windows(2).all(|w| w[0] < w[1]) || sv.iter().any(|v| *v >= n) || svo != by_level || svl != levels {
+                        d_close(file);
+                        let _ = std::fs::remove_file(&path);
+                        return Err(format!("dddmp-header: {what}: support_vars {sv:?}, support_var_order {svo:?} (expected {by_level:?}: the support sorted by level), support_var_to_level {svl:?} (expected {levels:?})"));
+                    }
+                    if kind != BKind::Zbdd {
+                        // BDD/BCDD: the support is the set of variables the exported functions depend on
+                        let dep: Vec<u32> = (0..n).filter(|v| fs.iter().any(|x| x.1.depends(*v))).collect();
+                        if sv != dep {
+                            d_close(file);
+                            let _ = std::fs::remove_file(&path);
+                            return Err(format!("dddmp-header: {what}: support_vars {sv:?}, the exported functions depend on {dep:?}"));
+                        }
+                    }
                     let mut out = vec![INVALID; hs.len()];
-                    let ok = f!(import_dddmp)(mgr, file, std::ptr::null(), out.as_mut_ptr(), std::ptr::null_mut());
+                    // import with the default (NULL) or with the explicit support order from the accessor
+                    let explicit = *two && !svo.is_empty();
+                    let ok = f!(import_dddmp)(mgr, file, if explicit { svo.as_ptr() } else { std::ptr::null() }, out.as_mut_ptr(), std::ptr::null_mut());
                     d_close(file);
                     let _ = std::fs::remove_file(&path);
                     if !ok {
@@ -1062,7 +1101,7 @@ pub fn run(cfg: &Cfg) -> i32 {
         &total,
         Meta {
             level: "exploration",
-            rule: "proptest call sequences (10..70 calls) over the exported oxidd_{bdd,bcdd,zbdd}_* symbols of the freshly built liboxidd_ffi_c.so (loaded with dlopen, prototypes declared by hand): manager_new/ref/unref, add_vars, set_var_order, var/level maps, gc, constants, var/not_var, all connectives, ite, restrict, quantifiers and apply-quantify, substitution objects (new/add_pair/substitute twice/free), cofactors, ref/unref, node_count/level/var, satisfiable/valid, sat_count_double, pick_cube(+assignment_free)/pick_cube_dd/pick_cube_dd_set, eval, containing_manager, variable names through C (set_var_name incl. NULL/empty/duplicate/non-ASCII names, var_name with free(), name_to_var, num_named_vars against a Vec<String> model), DDDMP round trips through C (manager_export_dddmp with NULL settings/names/error -> oxidd_dddmp_open/num_roots/num_vars -> manager_import_dddmp into the same manager: the imported handles must be the exported ones and are owned by the caller), ZBDD singleton/base/empty/subset0/subset1/change/union/intsec/diff/make_node (which consumes hi and lo - also when var, hi or lo is the invalid handle), and calls with the invalid handle at every operand position. Oracle: the harness keeps a ledger of the handles it owns with their truth tables (model = what the Rust API yields by C02-C04/C09): every returned handle must evaluate (oxidd_*_eval on all assignments) to the model table and have the reference node count; an invalid operand must give an invalid result; after every gc the manager must hold exactly the inner nodes of the shared reduced diagram of the owned tables (a leaked reference shows up as a surplus, an over-release as a deficit or crash); at the end every owned handle is unref'ed once and the manager must be back at its baseline. Each sequence runs in a forked child (a segfault/abort is a verdict). Non-trivial = sequence with a result whose operands stay owned, at least one invalid-handle call and at least one gc balance check.",
+            rule: "proptest call sequences (10..70 calls) over the exported oxidd_{bdd,bcdd,zbdd}_* symbols of the freshly built liboxidd_ffi_c.so (loaded with dlopen, prototypes declared by hand): manager_new/ref/unref, add_vars, set_var_order, var/level maps, gc, constants, var/not_var, all connectives, ite, restrict, quantifiers and apply-quantify, substitution objects (new/add_pair/substitute twice/free), cofactors, ref/unref, node_count/level/var, satisfiable/valid, sat_count_double, pick_cube(+assignment_free)/pick_cube_dd/pick_cube_dd_set, eval, containing_manager, variable names through C (set_var_name incl. NULL/empty/duplicate/non-ASCII names, var_name with free(), name_to_var, num_named_vars against a Vec<String> model), DDDMP round trips through C (manager_export_dddmp with NULL settings/names/error -> oxidd_dddmp_open/num_roots/num_vars/support_vars/support_var_order/support_var_to_level (checked against the manager's current order and the functions' dependencies) -> manager_import_dddmp with NULL or the explicit support order into the same manager: the imported handles must be the exported ones and are owned by the caller), ZBDD singleton/base/empty/subset0/subset1/change/union/intsec/diff/make_node (which consumes hi and lo - also when var, hi or lo is the invalid handle), and calls with the invalid handle at every operand position. Oracle: the harness keeps a ledger of the handles it owns with their truth tables (model = what the Rust API yields by C02-C04/C09): every returned handle must evaluate (oxidd_*_eval on all assignments) to the model table and have the reference node count; an invalid operand must give an invalid result; after every gc the manager must hold exactly the inner nodes of the shared reduced diagram of the owned tables (a leaked reference shows up as a surplus, an over-release as a deficit or crash); at the end every owned handle is unref'ed once and the manager must be back at its baseline. Each sequence runs in a forked child (a segfault/abort is a verdict). Non-trivial = sequence with a result whose operands stay owned, at least one invalid-handle call and at least one gc balance check.",
             assumptions: vec!["manager handle balance (strong count) is not observable through the public C API and is not checked".into(), "C++/Python layers are not built here (no CMake/pytest offline)".into(), "DDDMP/DOT export through the C API is not driven".into()],
             extra: json!({"library": lib_path()}),
         },
